@@ -31,7 +31,7 @@ def main():
         # demos written by the agents assert their own worktree path: rewrite it to ours
         src = open(demo).read()
         import re
-        src2 = re.sub(r"/tmp/seed/(w[23]-)?C\d\d", wt, src)
+        src2 = re.sub(r"/tmp/seed/(w[234]-)?C\d\d", wt, src)
         demo2 = os.path.join(wt, "_demo.py")
         open(demo2, "w").write(src2)
         env = "cd %s && PYTHONPATH=%s /venv/bin/python %s" % (wt, wt, demo2)
